@@ -20,6 +20,12 @@ Binding B: random nested dictionaries (depth <= 3, strings over the alphabet) st
       program, and the optical-depth datasets found in every group written through direct calls, store_contributions,
       the taurex program (forward model with 4 binning set-ups, retrieval) and Optimizer.generate_solution for the three
       output sizes -- all validated by TLC; exact grid relations on dyadic grids; canaries.
+Binding C (histories of one binner): spec/BinnerHistory.tla + MC_BinnerHistory.tla (operations of a long-lived binner as actions; OpsArePure,
+      ResultEqualsFresh; design mutants "memo of the derived native widths keyed on length / on the end points" and "widths converted in place"
+      refuted); every ordered pair of operations and longer TLC-generated sequences replayed on ONE real FluxBinner / SimpleBinner / NativeBinner,
+      the output dictionaries through HDF5Output + h5py: stored binned spectrum / optical depths = TLC's exact overlap-weighted mean of the
+      native arrays stored next to them, exposed centres / widths unchanged, every call = a freshly built binner's (harness/fx_binnerhist.py);
+      canary on the harness's own mutants of the real FluxBinner.
 """
 import itertools
 import json
@@ -1200,12 +1206,18 @@ def run(ctx):
                       random_dictionaries=400 if q else 4000, model_roundtrips='pairwise cover (%d) + component sweep' % (8 if q else 60),
                       spectrum_outputs='3 binners x 3 output sizes x (uniform, unsorted non-uniform, dyadic) grids; output size consumed through '
                       'direct calls (member and int), store_contributions, the taurex program (5 binning set-ups) and Optimizer.generate_solution',
-                      bibliography='short form and BibTeX of every built-in class that carries citations')
+                      bibliography='short form and BibTeX of every built-in class that carries citations',
+                      binner_histories='one FluxBinner / SimpleBinner / NativeBinner each through every ordered pair of %d operations (bindown with / without '
+                      'grid_width and error, bin_model, generate_spectrum_output x 3 sizes on %d native grids: same grid, same length and ends with another '
+                      'spacing, same length elsewhere, other length) and %d random sequences of %d operations; 4 target bins (overlapping, gapped, unsorted)'
+                      % ((32, 4, 120, 6) if q else (40, 5, 1200, 9)))
     ctx.assumptions = ['h5py reads back what HDF5Output wrote (Load = the h5py view)',
                        'names are ASCII <= 64 characters without "/" and no key is another key followed by digits',
                        'strings hold no NUL character; an entry of a string list / tuple is at most 64 bytes of UTF-8 (S64 by design)',
                        'the per-contribution blocks of a run are stored one step lighter than the run (the size - 3 of both callers)',
                        'constructor arguments are observed by signature-preserving wrappers installed from outside the repository',
+                       'binner histories: native grids ascend, their cells (passed widths, or mid-point widths centred on the points) ascend in both edges and '
+                       'reach every target bin (AlphabetOk, checked by TLC); lattice coordinates times a dyadic unit are exact floats',
                        'TLC + CommunityModules Json/IOUtils']
     tmp = tempfile.mkdtemp(prefix='c16_')
     sd = None
